@@ -108,9 +108,14 @@ impl<T: Qcow2IoOps> Qcow2Dev<T> {
             return Ok(());
         };
 
-        // Clear the L2 entry to all zeros (unallocated state, reads-as-zero).
+        // Clear the L2 entry: all zeros is the unallocated state, which reads
+        // as zero unless the image has a backing file -- there "unallocated"
+        // means "read from the backing image", so the stale backing data
+        // would reappear. A zero cluster without allocation (bit 0) keeps
+        // the discarded range reading as zero in that case.
         let idx = split.l2_slice_index(info);
-        l2_table.set(idx, L2Entry(0));
+        let cleared = if info.has_back_file() { L2Entry(1) } else { L2Entry(0) };
+        l2_table.set(idx, cleared);
         l2_handle.set_dirty(true);
         self.mark_need_flush(true);
         drop(l2_table);
